@@ -634,23 +634,172 @@ theorem elems_shape_tmap (t : Ty) (v : J) (h : valid (.tmap t) v = true) :
     obtain ⟨kv, hkv, rfl⟩ := List.mem_map.mp hxm
     exact valid_of_shape _ _ (h1 kv hkv)
 
+/-! ### a typed map that is only split over: its elements, not its keys -/
+
+/-- `null`, or an object all of whose values have the shape of `t` -/
+def ElemsOk (t : Ty) (w : J) : Prop := w = .null ∨ ∃ kvs, w = .obj kvs ∧ ∀ kv ∈ kvs, Shape t kv.2
+
+theorem filter_tmap_elems (t s : Ty) (v : J) (ht : t.wf = true) (hs : Shape (.tmap s) v)
+    (ha : assignable t s = true) (hn : noHole t s = true) :
+    (filter (.tmap t) v).2 = .ok ∧ ElemsOk t (filter (.tmap t) v).1 := by
+  cases hs with
+  | null => rw [filter_null]; exact ⟨rfl, Or.inl rfl⟩
+  | tmap _ kvs h1 _ =>
+    by_cases hc : canFilter t = true
+    · simp only [filter, hc, Bool.not_true, Bool.false_eq_true, if_false]
+      refine ⟨?_, Or.inr ⟨_, rfl, ?_⟩⟩
+      · apply worstF_eq_ok
+        intro e he
+        obtain ⟨kv, hkv, rfl⟩ := List.mem_map.mp he
+        exact filter_ok_of_assignable t ht s kv.2 (h1 kv hkv) ha hn
+      · intro y hy
+        obtain ⟨kv, hkv, rfl⟩ := List.mem_map.mp hy
+        exact shape_filter_of_assignable t ht s kv.2 (h1 kv hkv) ha hn
+    · have hc' : canFilter t = false := by simpa using hc
+      simp only [filter, hc', Bool.not_false, if_true]
+      refine ⟨trivial, Or.inr ⟨kvs, rfl, ?_⟩⟩
+      intro kv hkv
+      have := shape_filter_of_assignable t ht s kv.2 (h1 kv hkv) ha hn
+      rwa [filter_fst_of_not_canFilter t kv.2 hc'] at this
+
+theorem pathVal_tmap_elems (src : Ty) : ∀ (v : J) (p : List Bytes) (s t : Ty), p ≠ [] →
+    Shape src v → fieldType src p = some (.tmap s) → t.wf = true → assignable t s = true → noHole t s = true →
+      ∃ w, pathVal (some (.tmap t)) src v p = some w ∧ ElemsOk t w := by
+  unfold pathVal
+  induction src using Ty.induct' with
+  | base b =>
+    intro v p s t hp _ h
+    cases p with
+    | nil => exact absurd rfl hp
+    | cons k p => simp [fieldType] at h
+  | user n =>
+    intro v p s t hp _ h
+    cases p with
+    | nil => exact absurd rfl hp
+    | cons k p => simp [fieldType] at h
+  | arr e _ =>
+    intro v p s t hp _ h
+    cases p with
+    | nil => exact absurd rfl hp
+    | cons k p =>
+      simp only [fieldType, Option.map_eq_some_iff] at h
+      obtain ⟨r, _, hr⟩ := h
+      cases hr
+  | tmap e _ =>
+    intro v p s t hp hs h ht ha hn
+    cases p with
+    | nil => exact absurd rfl hp
+    | cons k p =>
+      simp only [fieldType] at h
+      cases hr : fieldType e (k :: p) with
+      | none => simp [hr] at h
+      | some r =>
+        simp only [hr] at h
+        split at h
+        · simp only [Option.some.injEq, Ty.tmap.injEq] at h
+          subst h
+          cases hs with
+          | null => exact ⟨.null, by simp [pathValG], Or.inl rfl⟩
+          | tmap _ kvs h1 _ =>
+            obtain ⟨ws, hws, hall⟩ := allSome_map
+              (fun kv : Bytes × J => (pathValG peelMapD (some t) e kv.2 (k :: p)).map (fun w => (kv.1, w)))
+              (fun _ w => Shape t w.2) kvs
+              (fun kv hkv => by
+                obtain ⟨w, hw, hsw⟩ := pathVal_sound e kv.2 (k :: p) r t (by simp) (h1 kv hkv) hr ht ha hn
+                exact ⟨(kv.1, w), by simp [pathVal] at hw; simp [hw], hsw⟩)
+            refine ⟨.obj ws, by simp [pathValG, peelMapD, hws], Or.inr ⟨ws, rfl, ?_⟩⟩
+            intro w hw
+            obtain ⟨_, _, h'⟩ := hall w hw
+            exact h'
+        · cases h
+  | struct n fs ih =>
+    intro v p s t hp hs h ht ha hn
+    cases p with
+    | nil => exact absurd rfl hp
+    | cons k p =>
+      simp only [fieldType, fieldTypeF_eq] at h
+      cases hg : fs.get k with
+      | none => simp [hg] at h
+      | some mt =>
+        simp only [hg] at h
+        have hm := Fields.get_mem hg
+        cases hs with
+        | null => exact ⟨.null, by simp [pathValG], Or.inl rfl⟩
+        | struct _ _ kvs h1 h2 =>
+          have hsome := h1 k mt hm
+          cases hgk : getKey k kvs with
+          | none => simp [hgk] at hsome
+          | some w =>
+            have hsw := h2 k mt w hm hgk
+            cases p with
+            | nil =>
+              rw [fieldType_nil] at h
+              cases h
+              obtain ⟨hok, hel⟩ := filter_tmap_elems t s w ht hsw ha hn
+              exact ⟨(filter (.tmap t) w).1, by simp [pathValG, hgk, pathFG_eq, hg, leafRT, hok], hel⟩
+            | cons k' p' =>
+              obtain ⟨w', hw', hel⟩ := ih k mt hm w (k' :: p') s t (by simp) hsw h ht ha hn
+              exact ⟨w', by simp [pathValG, hgk, pathFG_eq, hg, hw'], hel⟩
+
+theorem refRT_tmap_elems (t s0 : Ty) (v : J) (p : List Bytes) (s : Ty) (ht : t.wf = true) (hs : Shape s0 v)
+    (hf : fieldType s0 p = some (.tmap s)) (ha : assignable t s = true) (hn : noHole t s = true) :
+    ∃ w, refRT (.tmap t) s0 v p = some w ∧ ElemsOk t w := by
+  cases p with
+  | nil =>
+    rw [fieldType_nil] at hf
+    cases hf
+    obtain ⟨hok, hel⟩ := filter_tmap_elems t s v ht hs ha hn
+    exact ⟨_, by simp [refRT, wholeRT, hok], hel⟩
+  | cons k p => exact pathVal_tmap_elems s0 v (k :: p) s t (by simp) hs hf ht ha hn
+
+theorem elems_of_elemsOk (t : Ty) (w : J) (h : ElemsOk t w) :
+    ∃ xs, elems w = some xs ∧ ∀ x ∈ xs, valid t x = true := by
+  rcases h with rfl | ⟨kvs, rfl, hk⟩
+  · exact ⟨[], rfl, by simp⟩
+  · refine ⟨kvs.map Prod.snd, rfl, ?_⟩
+    intro x hx
+    obtain ⟨kv, hkv, rfl⟩ := List.mem_map.mp hx
+    exact valid_of_shape _ _ (hk kv hkv)
+
 theorem split_arr_rt (Γ : Env) (ρ : Store) (hρ : StoreOk Γ ρ) (t : Ty) (ht : t.wf = true) (e : Exp) (s0 : Ty)
     (he : ∃ id p, e = .self id p ∨ e = .call id p) (hr : refType Γ e = some (.arr s0))
-    (ha : assignable t s0 = true) (hn : noHole (.arr t) (.arr s0) = true) :
+    (ha : assignable t s0 = true) (hn : noHole t s0 = true) :
     ∃ vs, (evalT Γ ρ (.arr t) e).bind elems = some vs ∧ ∀ v ∈ vs, valid t v = true := by
   obtain ⟨v, hev, hval⟩ := ref_sound_rt Γ ρ hρ (.arr t) (by simpa [Ty.wf] using ht) e (.arr s0)
-    he hr (by simpa [assignable] using ha) hn
+    he hr (by simpa [assignable] using ha) (by simpa [noHole] using hn)
   obtain ⟨xs, hxs, hall⟩ := elems_shape_arr t v hval
   exact ⟨xs, by simp [hev, hxs], hall⟩
 
 theorem split_tmap_rt (Γ : Env) (ρ : Store) (hρ : StoreOk Γ ρ) (t : Ty) (ht : t.wf = true) (e : Exp) (s0 : Ty)
     (he : ∃ id p, e = .self id p ∨ e = .call id p) (hr : refType Γ e = some (.tmap s0))
-    (ha : assignable t s0 = true) (hn : noHole (.tmap t) (.tmap s0) = true) :
+    (ha : assignable t s0 = true) (hn : noHole t s0 = true) :
     ∃ vs, (evalT Γ ρ (.tmap t) e).bind elems = some vs ∧ ∀ v ∈ vs, valid t v = true := by
-  obtain ⟨v, hev, hval⟩ := ref_sound_rt Γ ρ hρ (.tmap t) (by simpa [Ty.wf] using ht) e (.tmap s0)
-    he hr (by simpa [assignable] using ha) hn
-  obtain ⟨xs, hxs, hall⟩ := elems_shape_tmap t v hval
-  exact ⟨xs, by simp [hev, hxs], hall⟩
+  obtain ⟨id, p, rfl | rfl⟩ := he
+  · rw [evalT_self]
+    simp only [refType] at hr
+    cases hl : Γ.self.lookup id with
+    | none => simp [hl] at hr
+    | some sd =>
+      simp only [hl] at hr
+      obtain ⟨v, hv0, hval⟩ := hρ.1 id sd hl
+      obtain ⟨w, hw, hel⟩ := refRT_tmap_elems t sd v p s0 ht (shape_of_valid sd v hval) hr ha hn
+      obtain ⟨xs, hxs, hall⟩ := elems_of_elemsOk t w hel
+      exact ⟨xs, by simp [evalLeaf, hl, hv0, hw, hxs], hall⟩
+  · rw [evalT_call]
+    cases hl : Γ.calls.lookup id with
+    | none => simp [refType, hl] at hr
+    | some sig =>
+      obtain ⟨v, hv0, hval⟩ := hρ.2 id sig hl
+      have hf : fieldType sig.whole p = some (.tmap s0) := by
+        cases p with
+        | nil =>
+          simp only [refType, hl] at hr
+          rw [fieldType_nil]
+          cases ho : sig.outs <;> simp [ho] at hr <;> rw [hr]
+        | cons o p => rw [← refType_call_eq Γ id o p sig hl]; exact hr
+      obtain ⟨w, hw, hel⟩ := refRT_tmap_elems t sig.whole v p s0 ht (shape_of_valid _ v hval) hf ha hn
+      obtain ⟨xs, hxs, hall⟩ := elems_of_elemsOk t w hel
+      exact ⟨xs, by simp [evalLeaf, hl, hv0, hw, hxs], hall⟩
 
 theorem split_ref_sound_rt (Γ : Env) (ρ : Store) (hρ : StoreOk Γ ρ) (t : Ty) (ht : t.wf = true) (e : Exp)
     (he : ∃ id p, e = .self id p ∨ e = .call id p)
